@@ -8,6 +8,7 @@ import (
 	"encoding/base64"
 	"fmt"
 	"net"
+	"net/http"
 	"net/url"
 	"strings"
 	"time"
@@ -29,7 +30,7 @@ func init() {
 }
 
 var c18Proxies = []string{"", "http://proxy.example:3128", "https://proxy.example:3129", "socks5://proxy.example:1080", "http://proxy.example", "https://proxy.example"}
-var c18Hosts = []string{"backend.example", "backend.example:8443", "192.0.2.7", "[::1]", "[::1]:9000"}
+var c18Hosts = []string{"backend.example", "backend.example:8443", "192.0.2.7", "[::1]", "[::1]:9000", "backend.example:80", "backend.example:443"}
 var c18ProxyReplies = []string{"", "200", "407 Proxy Authentication Required", "407", "502 Bad Gateway", "garbage", "eof", "200 OK", "403 ", "204 No Content", "201 Created", "299 Whatever", "100 Continue"}
 
 func c18Scenarios(tier string) []*explore.Scenario {
@@ -165,7 +166,13 @@ func c18Body(x *explore.Ctx, pi int, secure bool, hi int) {
 		}
 	}
 	d.HandshakeTimeout = time.Hour
-	conn, _, err := d.Dial(urlStr, nil)
+	var reqHdr http.Header
+	if x.Pick(2, "caller-Host-override") == 1 {
+		// a Host header override changes the Host header only: dial target, CONNECT target and
+		// the name the certificate is verified for stay those of the URL
+		reqHdr = http.Header{"Host": {"override.example"}}
+	}
+	conn, _, err := d.Dial(urlStr, reqHdr)
 	if conn != nil {
 		conn.Close()
 	}
